@@ -1,7 +1,7 @@
 """Per-property claim texts for MANIFEST.json (kept next to the obligations registry)."""
 
 ENGINES = [
-    dict(name="jsym", path="jsym/", serves_properties=["C01", "C02", "C03", "C04", "C05", "C06", "C07", "C09", "C12"],
+    dict(name="jsym", path="jsym/", serves_properties=["C01", "C02", "C03", "C04", "C05", "C06", "C07", "C09", "C12", "C18", "C20"],
          kind_free_text="own concolic executor on z3: proxy objects for ints/reals/bools, every branch decided by the solver, replay-based DFS to exhaustion, prefix-sharded over 16 processes; real JADE code runs natively"),
 ]
 
@@ -58,5 +58,20 @@ CLAIMS["C04"] = dict(text=_HS + "a job is canceled (status canceled, return code
 CLAIMS["C09"] = dict(text=_HS + "after every release of the cluster lock the status is read through Cluster.deserialize and the property's clauses are asserted verbatim (counter order, recounts, done => result row, blockers empty once submitted, versions increase with every change, states/counters/blockers monotone, complete stays complete).", note=_HN, technique=_T)
 CLAIMS["C12"] = dict(text=_HS + "with solver-chosen lost batches (sbatch failing on every retry, a pending batch cancelled by the scheduler, a running node killed at any scheduler step): after the documented recovery the submission is complete, results hold exactly the rows recorded before the loss with the real exit codes, missing_jobs = all other jobs, canceled jobs never ran, no job started without its blockers' rows.", note=_HN + " kill -9 of a node is modelled by unwinding its thread and restoring a file-system snapshot taken at the kill point.", technique=_T)
 
+CLAIMS["C18"] = dict(
+    text="Seven obligations on the real SlurmManager / HpcSubmitter._create_run_script / HpcManager.submit / AsyncHpcSubmitter.is_complete / run_command: "
+    "K-script (all 2^9 set/unset combinations of the optional SlurmConfig fields, run options, 1-2 groups: #SBATCH lines exactly the configured parameters, last line runs the batch's run script, run-script line parsed back by the real click command), "
+    "K-status (squeue output over the complete SLURM state vocabulary long+short plus out-of-vocabulary tokens x whitespace patterns x up to 3 lines; is_complete only for absent/finished), "
+    "K-sbatch (response vocabulary x 0-7 failing attempts), K-retry (num_retries in [0,6], per-attempt return code a symbolic integer, permanent-error flag: executions <= retries+1, stop at first success / listed permanent error, last attempt's code and output returned, delays), "
+    "plus two direct z3 string queries over unbounded strings generated from the live objects: no token outside the finished vocabulary maps to COMPLETE or NONE in SlurmManager._STATUSES, and the language of _REGEX_SBATCH_OUTPUT (translated from re._parser) equals .*'Submitted batch job '[0-9]+.* (witnesses replayed through the real submit).",
+    note="sbatch/squeue are stubbed at subprocess.Popen; time.sleep recorded. Finished vocabulary = SLURM terminal states (COMPLETED, COMPLETING, FAILED, CANCELLED, TIMEOUT, NODE_FAIL, PREEMPTED, BOOT_FAIL, DEADLINE, OUT_OF_MEMORY, REVOKED, SPECIAL_EXIT and their short codes). \\d is modelled as [0-9] (ASCII). Whether SLURM accepts --ntasks_per_node spelled with underscores is not claimed.",
+    technique="bounded symbolic execution with z3 (jsym) + direct z3 sequence/regex queries generated from the live objects", engine="jsym+z3")
+CLAIMS["C20"] = dict(
+    text="K-stats: real ResourceMonitorAggregator.update_resource_stats/finalize with samples as z3 reals (k<=3, 4 thorough; system and per-process, processes appearing/disappearing): reported min/max/mean equal those of the samples for every real-valued sample sequence. "
+    "K-events: real StructuredLogEvent/log_event/JobRunner._aggregate_events/EventsSummary on real files, <=2 (3) events over <=3 files, names, equal/zero-microsecond stamps and nested data chosen by the solver: lossless, ordered by time within name, idempotent consolidation. "
+    "K-tally: Result.is_*/JobSubmitter._build_results/write_results_summary/ResultsSummary.show_results with return codes as symbolic integers in [-1000,1000]: each job in exactly one of successful/failed/canceled/missing.",
+    note="psutil stubbed (_get_stats/_get_process_stats return solver reals); statistics over reals, floating-point rounding outside the claim; parquet resource-stat events outside the claim.",
+    technique="bounded symbolic execution of the real code with z3 (jsym) over reals and integers")
+
 _TODO = "check not built yet in this session (planned in DESIGN.md section 6); not claimed until it exists"
-NOT_APPLICABLE = {p: _TODO for p in ["C08", "C10", "C11", "C13", "C14", "C15", "C16", "C17", "C18", "C19", "C20"]}
+NOT_APPLICABLE = {p: _TODO for p in ["C08", "C10", "C11", "C13", "C14", "C15", "C16", "C17", "C19"]}
